@@ -18,6 +18,24 @@ CLAIMED = {
     note=TB + "lxml's feed semantics (which children are in the tree / complete after a feed) is the model's assumption, validated "
          "by the correspondence only; foreign elements are compared by tag and attributes and are not in the Gallina model.",
     technique="Coq proof over all chunkings of a feed model + exhaustive 2-chunk correspondence", ref='5 C06'),
+ 'C13': dict(
+    text="Theorems over an executable model of normalize_objects (Python values as a sum type, exact rationals for floats, "
+         "sign/coefficient/exponent for Decimals): integer types print the canonical rendering of the integer the input denotes "
+         "and the gate's own reader gets that integer back; a second pass changes nothing (integers, booleans, base64, strings, "
+         "hex); booleans accept only the spellings of true/false and reject everything else; base64 padding completes the length "
+         "to a multiple of four and changes nothing else; decimals are exact for every coefficient size when the type keeps enough "
+         "digits, otherwise the nearest value (half-even), zero unsigned; the calendar conversion is the inverse of the ordinal "
+         "on all 3652059 days (exhaustive by computation) and an aware datetime is printed as the UTC reading of the same instant. "
+         "The pinned behaviours (len%4 padding, garbage->false, untouched offsets) are refuted with witnesses. Tied to the code by "
+         "T1 (digit/whitespace tables regenerated from the interpreter, pad/format expressions from the source ast, compared by "
+         "reflexivity) and T2: ~4000 (data type, value) cases per run through DataType.normalize_objects vs the model, plus an "
+         "oracle with independent denotations (Fraction, datetime arithmetic, ipaddress) demanding the exact expected string, "
+         "acceptance by the real EventValidator, idempotence and no laundering of garbage; writer auto-repair and to_edxml_object "
+         "paths included.",
+    note=TB + "idempotence of float / decimal / datetime / IP / geo output and correct rounding of %E are established by the oracle "
+         "and correspondence only (not proved); dateutil and IPy are not modelled; Unicode case folding outside ASCII is outside the "
+         "model. Open known findings: integer types truncate non-integral floats / Decimals (pinned by a test).",
+    technique="Coq proof over an executable normaliser model (incl. exhaustive calendar check) + regenerated tables/source facts + differential correspondence with independent-denotation oracle", ref='5 C13'),
  'C07': dict(
     text="Theorems: for every initial content, both XML backed classes and EVERY sequence of public mutations the calls raise "
          "exactly when the dictionary-of-sets model says, the views show the model's state and the XML element equals the "
